@@ -140,24 +140,36 @@ def step (_p : IpcHub.TsSpec.Params) (m : Meta) (frag rate : Nat) (path token : 
       | none => st
       | some s => if segBytes cfg s == bytes then st else noteCorr st s!"current-bytes:{cmpBytes (segBytes cfg s) bytes}"
 
-/-- the per-segment and cross-segment clauses, on the bytes the implementation served -/
-def finalSpec (p : IpcHub.TsSpec.Params) (frag : Nat) (st : St) (complete : Bool) : Except String Unit := do
+/-- the per-segment and cross-segment clauses, on the bytes the implementation served: EVERY clause
+    is evaluated (a segment opened in mid-GOP — the open known finding when the audio side reaped —
+    does not hide what the numbering and the frame accounting say); returns the failing classes -/
+def finalSpec (p : IpcHub.TsSpec.Params) (frag : Nat) (st : St) (complete : Bool) : List String := Id.run do
   let segs := st.segs.reverse
+  let mut fails : List String := []
   let mut pes : List IpcHub.HlsSpec.SegPes := []
+  let mut demuxed := true
   for (seq, b) in segs do
-    let sp ← IpcHub.HlsSpec.demuxSegment b
-    -- the audio-side reap may open a segment in the middle of a GOP (known, reported per class)
-    if seq > 1 ∧ ¬ IpcHub.HlsSpec.startsWithKey p sp then
-      -- class by the cause, from the implementation's own observations: the audio-side reap fires
-      -- only when the segment before lasted at least 2 × fragment (known open finding); a segment
-      -- opened earlier than that in mid-GOP is a different failure
-      let prevLong : Bool := match st.durs.find? (·.1 = seq - 1) with
-        | some (_, d) => decide (d ≥ 2 * (frag : Int) * 90000)
-        | none => false
-      throw (cond prevLong "segment-not-starting-with-key:audio-side-reap" "segment-not-starting-with-key")
-    pes := pes ++ [sp]
-  if ¬ IpcHub.HlsSpec.consecutive (segs.map (·.1)) then throw "segment-numbers-not-consecutive"
-  IpcHub.HlsSpec.checkExactlyOnce p st.srcs.reverse pes complete
+    match IpcHub.HlsSpec.demuxSegment b with
+    | .error e =>
+      if demuxed then fails := fails ++ [e]
+      demuxed := false
+    | .ok sp =>
+      if seq > 1 ∧ ¬ IpcHub.HlsSpec.startsWithKey p sp then
+        -- class by the cause, from the implementation's own observations: the audio-side reap fires
+        -- only when the segment before lasted at least 2 × fragment (known open finding); a segment
+        -- opened earlier than that in mid-GOP is a different failure
+        let prevLong : Bool := match st.durs.find? (·.1 = seq - 1) with
+          | some (_, d) => decide (d ≥ 2 * (frag : Int) * 90000)
+          | none => false
+        let cls := cond prevLong "segment-not-starting-with-key:audio-side-reap" "segment-not-starting-with-key"
+        if ¬ fails.contains cls then fails := fails ++ [cls]
+      pes := pes ++ [sp]
+  if ¬ IpcHub.HlsSpec.consecutive (segs.map (·.1)) then fails := fails ++ ["segment-numbers-not-consecutive"]
+  if demuxed then
+    match IpcHub.HlsSpec.checkExactlyOnce p st.srcs.reverse pes complete with
+    | .error e => fails := fails ++ [e]
+    | .ok _ => pure ()
+  return fails
 
 /-- `run frag=<n> rate=<n> path=<hex> token=<hex> sps=<hex> pps=<hex> asc=<…> <event>…`
     → `model=<ok|diff:…> panic=<0|1> spec=<ok|fail:…>` -/
@@ -177,12 +189,13 @@ def handle : List String → String
                         srIndex := (if a.extSampleRate > 0 then a.extSamplingIndex else a.samplingIndex),
                         chanCfg := a.channelConfig }
           | none => { sps, pps, aot := 0, srIndex := 0, chanCfg := 0 }
-        let st0 : St := { g := some Hls.init, srcs := [], segs := [], durs := [], held := [], corr := none, spec := none, panicked := false }
+        let st0 : St := { g := some (Hls.initOf cfg), srcs := [], segs := [], durs := [], held := [], corr := none, spec := none, panicked := false }
         let st := evs.foldl (step p m frag rate path token) st0
         let complete := evs.any (fun e => match e with | .curBytes _ _ => true | _ => false)
-        let spec := match st.spec with
-          | some e => "fail:" ++ e
-          | none => if st.panicked then "skip" else IpcHub.HlsSpec.verdict (finalSpec p frag st complete)
+        -- `spec=ok` | `spec=skip` | `spec=fail:<class>,<class>…`
+        let fails := (match st.spec with | some e => [e] | none => []) ++
+          (if st.panicked then [] else (finalSpec p frag st complete).filter (fun e => st.spec ≠ some e))
+        let spec := if fails.isEmpty then (if st.panicked then "skip" else "ok") else "fail:" ++ ",".intercalate fails
         let model := match st.corr with | some e => "diff:" ++ e.replace " " "_" | none => "ok"
         s!"model={model} panic={boolStr st.panicked} spec={spec}"
     | _, _, _, _, _, _, _ => "bad-op"
